@@ -21,7 +21,7 @@ use crate::{
         search::{search_app::SearchApp, search_app_result::SearchAppResult},
     },
     plugin::{
-        input::{input_plugin::InputPlugin, input_plugin_ops as in_ops},
+        input::{input_plugin::InputPlugin, input_plugin_ops as in_ops, InputPluginError},
         output::{output_plugin::OutputPlugin, output_plugin_ops as out_ops},
     },
 };
@@ -579,6 +579,15 @@ pub fn apply_input_plugins(
     query: &serde_json::Value,
     plugins: &Vec<Arc<dyn InputPlugin>>,
 ) -> Result<Vec<serde_json::Value>, serde_json::Value> {
+    // a query must be a JSON object: anything else is answered with an error response that
+    // echoes it (it used to end in an invariant error without the request, and an empty array
+    // was flattened away without any response)
+    if !query.is_object() {
+        let error = InputPluginError::UnexpectedQueryStructure(String::from(
+            "query is not a JSON object",
+        ));
+        return Err(in_ops::package_error(&mut query.clone(), error));
+    }
     let mut plugin_state = serde_json::Value::Array(vec![query.clone()]);
     for plugin in plugins {
         let p = plugin.clone();
